@@ -86,4 +86,33 @@ theorem chain_slices {α : Type} (arr : List α) : ∀ (l : List (Nat × Nat)) (
     simp only [List.flatMap_cons, hr]
     exact pySlice_append arr a b e hab hbe
 
+/-- number of batches whose half-open range `[p.1, p.2)` contains the index `k` -/
+def owners (l : List (Nat × Nat)) (k : Nat) : Nat := (l.filter fun p => decide (p.1 ≤ k ∧ k < p.2)).length
+
+theorem chain_owners : ∀ (l : List (Nat × Nat)) (s e : Nat), Chain l s e → (∀ p ∈ l, p.1 ≤ p.2) →
+    ∀ k, owners l k = if s ≤ k ∧ k < e then 1 else 0 := by
+  intro l
+  induction l with
+  | nil => intro s e h _ k; simp [Chain] at h; subst h; simp [owners]
+  | cons p rest ih =>
+    intro s e h hle k
+    obtain ⟨a, b⟩ := p
+    simp only [Chain] at h
+    obtain ⟨rfl, hc⟩ := h
+    have hab : a ≤ b := hle (a, b) (List.mem_cons_self)
+    have hbe := (chain_cover rest b e hc (fun q hq => hle q (List.mem_cons_of_mem _ hq))).1
+    have hr := ih b e hc (fun q hq => hle q (List.mem_cons_of_mem _ hq)) k
+    unfold owners at hr ⊢
+    simp only [List.filter_cons]
+    by_cases h1 : a ≤ k ∧ k < b
+    · simp only [h1, and_self, decide_true, if_true, List.length_cons, hr]
+      have : ¬ (b ≤ k ∧ k < e) := by omega
+      simp [this]; omega
+    · simp only [h1, decide_false, Bool.false_eq_true, if_false, hr]
+      by_cases h2 : b ≤ k ∧ k < e
+      · have : a ≤ k ∧ k < e := by omega
+        simp [h2, this]
+      · have : ¬ (a ≤ k ∧ k < e) := by omega
+        simp [h2, this]
+
 end Batch
